@@ -1396,6 +1396,53 @@ theorem child_after_delete_rejected (d : Nat) (s : Topo) (n : Nat) (lp : Bool) (
       · rfl
       · simp
 
+/-- decided after an admitted delete of `n`, an update that hangs a quota under `n` is rejected (the unchanged-fields
+    shortcut cannot apply: a recorded quota whose parent is `n` would have been a child, and the delete was admitted). -/
+theorem reparent_after_delete_rejected (d : Nat) (s : Topo) (n : Nat) (lp : Bool) (q : QI) (sw hp : Bool)
+    (hW : WF d s) (h : (validDelete s n lp).2 = true) (hpar : q.parent = n) :
+    (validUpdate d (validDelete s n lp).1 q sw hp).2 = false := by
+  obtain ⟨o, hfo, hk, hlp, hst⟩ := validDelete_true h
+  have hn0 : n ≠ 0 := by
+    intro h0; subst h0; simp [validDelete] at h
+  have hfind : find (validDelete s n lp).1.info n = none := by
+    rw [hst]
+    unfold find delState
+    simp [List.find?_eq_none]
+  have hsub : ∀ c ∈ (validDelete s n lp).1.info, c ∈ s.info := by
+    rw [hst]; intro c hc; exact (List.mem_filter.mp hc).1
+  have ht : ∀ o', q.name ≠ 0 → topoCheck d (validDelete s n lp).1 (some o') q hp = false := by
+    intro o' hq
+    unfold topoCheck parentInfoOK
+    simp only [hpar, hfind, hn0, hq, if_false]
+    repeat' split
+    all_goals simp_all
+  unfold validUpdate
+  cases hold : find (validDelete s n lp).1.info q.name with
+  | none =>
+    simp only []
+    repeat' split
+    all_goals first | rfl | simp_all
+  | some o' =>
+    by_cases hsf : sameFields o' q = true
+    · exfalso
+      have hop : o'.parent = n := by
+        have : (o'.parent == q.parent) = true := by
+          simp only [sameFields, Bool.and_eq_true] at hsf
+          exact hsf.1.1.1.1.1.1.1.1.1.1
+        rw [← hpar]; simpa using this
+      have hmem := hsub o' (find_some hold).1
+      have hkid : (n, o'.name) ∈ s.kids := (hW.forest.kidsOK n o'.name).mpr ⟨o', hmem, rfl, hop⟩
+      have : hasKids s n = true := by
+        unfold hasKids
+        exact List.any_eq_true.mpr ⟨(n, o'.name), hkid, by simp⟩
+      rw [this] at hk; cases hk
+    · simp only [hsf]
+      by_cases hq : q.name = 0
+      · simp [hq]
+      · simp only [ht o' hq]
+        repeat' split
+        all_goals first | rfl | simp_all
+
 /-- THE SPLIT SHAPE (check in a read-locked helper, pod list outside any lock, removal under a re-taken write lock that
     only re-checks that the quota still exists): parent 3 without children; the delete passes its check, the create of
     child 4 under 3 runs while the pod list is in flight and is admitted (its parent exists), the removal then deletes
